@@ -177,6 +177,28 @@ def diss_index(ctx, n=3, mi=0):
         ctx.prove("volume_below_index_within_budget", ctx.le(below, md * m3))
 
 
+def repeat(ctx, n=2):
+    """a second evaluation on the same grid is not influenced by the first one (no state carried between calls)"""
+    pbm, b0, w = mk_pbm(ctx, n)
+    psd1 = ctx.reals("first_n", n, (0.0, 5.0)); g1 = ctx.reals("first_g", n + 1, (-1.0, 1.0))
+    for i in range(n):
+        ctx.assume(psd1[i] >= 0)
+    nuc1 = ctx.real("first_nuc", (0.0, 2.0)); ctx.assume(nuc1 >= 0)
+    dt1 = ctx.real("first_dt", (0.05, 1.0)); ctx.assume(dt1 > 0)
+    pbm.PSD = psd1
+    pbm.getdXdtEuler(g1, nuc1, b0 + 0.5 * w, psd1)
+    pbm.correctdXdtEuler(dt1, g1, nuc1, b0 + 0.5 * w, psd1)
+    psd, g, nuc, rn = inputs(ctx, n, nuc=False)
+    pbm.PSD = psd
+    d = pbm.getdXdtEuler(g, 0, 0, psd)
+    J = ref_faces(ctx, n, psd, g, w)
+    ctx.observe("netflux2", pbm._netFlux)
+    for i in range(n + 1):
+        ctx.prove("second call: face flux is the upwind flux of the second call's arguments only", ctx.eq(pbm._netFlux[i], J[i]))
+    for i in range(n):
+        ctx.prove("second call: dxdt is the face difference of the second call's arguments only", ctx.eq(d[i], J[i] - J[i + 1]))
+
+
 def grain_growth(ctx, n=3):
     """GrainGrowthModel.getdXdt/correctdXdt reuse the PBM kernels: grain number changes only through the end faces"""
     gg = GrainGrowthModel(1e-10, 1e-9, n, 1, 10 * n)
@@ -216,6 +238,8 @@ HARNESSES = [
     Harness("C07.diss_index", diss_index, functions=[PBM.getDissolutionIndex, PBM.CumulativeMoment, PBM.ThirdMoment],
             assumptions=_A, bounds={"classes": "n", "minIndex": "mi"},
             params={"quick": [{"n": 3, "mi": 0}, {"n": 3, "mi": 1}], "thorough": [{"n": 4, "mi": 0}, {"n": 4, "mi": 2}]}),
+    Harness("C07.repeat", repeat, functions=_F, assumptions=_A, bounds={"classes": "n", "calls": 2},
+            params={"quick": [{"n": 2}], "thorough": [{"n": 3, "_shards": 4}]}),
     Harness("C07.grain_growth", grain_growth, functions=[GrainGrowthModel.getdXdt, GrainGrowthModel.correctdXdt,
                                                           GrainGrowthModel.grainGrowth, GrainGrowthModel.constrainedGrowth] + _F,
             assumptions=_A + ["grain populations > 0 (Rcr = M2/M1 defined)"], bounds={"classes": "n"},
